@@ -698,11 +698,12 @@ class Module(HasAccessibles):
                 name = rfunc.__name__
                 self.pollInfo.pending_errors.add(name)  # trigger o.k. message after error is resolved
                 if isinstance(e, SECoPError):
-                    e.raising_methods.append(name)
+                    # do not append name to e.raising_methods: e may be stored as the readerror
+                    # of a parameter and be announced already, its text must not change any more
                     if e.silent:
-                        self.log.debug('%s', e.format(False))
+                        self.log.debug('%s', e.format(False, name))
                     else:
-                        self.log.error('%s', e.format(False))
+                        self.log.error('%s', e.format(False, name))
                     if raise_com_failed and isinstance(e, CommunicationFailedError):
                         raise
                 else:
